@@ -206,6 +206,11 @@ def struct_cases(ax, tier):
     yield {"what": "structure"}
 
 
+def _md(a, b):
+    a, b = np.asarray(a, float), np.asarray(b, float)
+    return float(np.abs(a - b).max()) if a.shape == b.shape else float("inf")
+
+
 def struct_check(ax, case, rec):
     fem = import_felupe()
     kind, order, dim, permute = ax
@@ -231,7 +236,7 @@ def struct_check(ax, case, rec):
             g, gw = np.polynomial.legendre.leggauss(order + 1)
             P = np.array(list(itertools.product(g, repeat=dim)))[:, ::-1]
             W = np.array([np.prod(c) for c in itertools.product(gw, repeat=dim)])
-            rec.close("tensor-layout", max(np.abs(q0.points - P).max(), np.abs(q0.weights - W).max()), 1e-14)
+            rec.close("tensor-layout", max(_md(q0.points, P), _md(q0.weights, W)), 1e-14)
             if permute and dim > 1 and order >= 1:
                 # "according to the cell point orderings": same per-axis rank pattern as the Lagrange cell points
                 if order == 1:
@@ -260,7 +265,7 @@ def struct_check(ax, case, rec):
         base = "GaussLegendre" if kind == "GaussLegendreBoundary" else "GaussLobatto"
         ql = scheme(base, order, dim - 1, permute)
         rec.require("boundary-last-column", bool(np.all(x[:, -1] == -1.0)))
-        rec.close("boundary-is-lower-rule", max(np.abs(x[:, :-1] - ql.points).max(), np.abs(w - ql.weights).max()), 0.0)
+        rec.close("boundary-is-lower-rule", max(_md(x[:, :-1], ql.points), _md(w, ql.weights)), 0.0)
 
 
 AXIS_ALL = GL + LO + TRI + TET + SPH
